@@ -2,6 +2,7 @@
 from propcfg.common import STD_TRUST
 
 CONFIG = {
+    "plain_release": True,
     "props_modules": ["C20"],
     "level": "proof",
     "shards": {"quick": 8, "thorough": 16},
